@@ -355,7 +355,7 @@ func (t *Tree) WalkDeleted(path []string, condition func(interface{}) bool, f fu
 		// An empty tree holds nothing to delete.
 		return
 	}
-	if delBr, _ := t.internalDelete(path, condition, f, false); delBr {
+	if delBr, _ := t.internalDelete(path, condition, f, false, true); delBr {
 		t.leafBranch = nil
 	}
 }
@@ -366,19 +366,32 @@ func (t *Tree) WalkDeleted(path []string, condition func(interface{}) bool, f fu
 // a slice of subpaths ([]string) for all leaves deleted thus far if
 // retDeletedPaths is true. If retDeletedPaths is false, the returned slice
 // of subpaths is nil.
-func (t *Tree) internalDelete(subpath []string, condition func(interface{}) bool, f func(interface{}), retDeletedPaths bool) (bool, [][]string) {
+func (t *Tree) internalDelete(subpath []string, condition func(interface{}) bool, f func(interface{}), retDeletedPaths, root bool) (bool, [][]string) {
+	// The caller holds the write lock of the root only.  That excludes every
+	// operation that enters the Tree through the root, but not Update or Value
+	// on a Leaf retained by a caller, which lock just their own node: read the
+	// node under its own lock.  (Such a holder owns a single lock and acquires
+	// no other, so waiting for it here cannot deadlock.)
+	var lb interface{}
+	if root {
+		lb = t.leafBranch
+	} else {
+		t.mu.RLock()
+		lb = t.leafBranch
+		t.mu.RUnlock()
+	}
 	if len(subpath) == 0 || subpath[0] == "*" {
 		if len(subpath) != 0 {
 			subpath = subpath[1:]
 		}
 		// The subpath is a full path to a leaf.
-		switch b := t.leafBranch.(type) {
+		switch b := lb.(type) {
 		case branch:
 			// The subpath terminates in a branch node and will recursively delete any
 			// progeny leaves.
 			var allLeaves [][]string
 			for k, v := range b {
-				del, leaves := v.internalDelete(subpath, condition, f, retDeletedPaths)
+				del, leaves := v.internalDelete(subpath, condition, f, retDeletedPaths, false)
 				if retDeletedPaths {
 					leaf := []string{k}
 					for _, l := range leaves {
@@ -389,16 +402,16 @@ func (t *Tree) internalDelete(subpath []string, condition func(interface{}) bool
 					delete(b, k)
 				}
 			}
-			return len(t.leafBranch.(branch)) == 0, allLeaves
+			return len(b) == 0, allLeaves
 		default:
 			if len(subpath) != 0 {
 				// The subpath continues beyond this leaf: nothing matches, as in Query.
 				return false, nil
 			}
-			if condition(t.leafBranch) {
+			if condition(lb) {
 				// The second parameter is an empty path that will be filled as recursion
 				// unwinds for this leaf that will be deleted in its parent.
-				f(t.leafBranch)
+				f(lb)
 				if retDeletedPaths {
 					return true, [][]string{[]string{}}
 				}
@@ -407,10 +420,10 @@ func (t *Tree) internalDelete(subpath []string, condition func(interface{}) bool
 			return false, nil
 		}
 	}
-	if b, ok := t.leafBranch.(branch); ok {
+	if b, ok := lb.(branch); ok {
 		// Continue to recurse on subpath while it matches nodes in the Tree.
 		if br := b[subpath[0]]; br != nil {
-			delBr, allLeaves := br.internalDelete(subpath[1:], condition, f, retDeletedPaths)
+			delBr, allLeaves := br.internalDelete(subpath[1:], condition, f, retDeletedPaths, false)
 			if retDeletedPaths {
 				leaf := []string{subpath[0]}
 				// Prepend branch node name to all progeny leaves of branch.
@@ -448,7 +461,7 @@ func (t *Tree) DeleteConditional(subpath []string, condition func(interface{}) b
 		// An empty tree holds nothing to delete.
 		return nil
 	}
-	delBr, leaves := t.internalDelete(subpath, condition, func(interface{}) {}, true)
+	delBr, leaves := t.internalDelete(subpath, condition, func(interface{}) {}, true, true)
 	if delBr {
 		t.leafBranch = nil
 	}
